@@ -92,7 +92,8 @@ pairwise different finals (this is the FULL statement documented at `enum_le4_pa
 `from_sorted_table` round trip): `from_particles` returns (2n-3)!! chains; each chain is a binary tree rooted at
 `top` with leaf set = finals (`IsTreeChain`: two daughters per decay, no second mother, no second decay, single
 top, `sorted_table` exists and is the bottom-up table of the tree); the `topology_id`s (identical=False) of the
-chains are pairwise different, so no two chains are reported as the same topology. -/
+chains are pairwise different, so no two chains are reported as the same topology. The round trip is
+`enum_roundtrip_all_n` in Props/C14c.lean. -/
 theorem enum_all_n {α : Type} [DecidableEq α] [LT α] [DecidableLT α] (hα : LinLt α) (mk : Nat → Nat → α)
     (top : α) (finals : List α) (h2 : 2 ≤ finals.length) (hn : NamesOK mk top finals) :
     ∃ cs, fromParticles mk top finals = some cs ∧ cs.length = dfact (2 * finals.length - 3)
@@ -159,8 +160,8 @@ theorem isBinaryTree_of_isTreeChain (top : Nat) (finals : List Nat) (c : Chain N
 /-- ★ `enum_le4_partial` of Props/C14.lean without the bound 4 (5 with C14N5), in its own Boolean vocabulary: for
 EVERY 2 ≤ n < 1000 (the Nat labelling 1000 (i+1) + k of the inner particles collides with the finals for larger n —
 `enum_all_n` has no such bound) `from_particles` returns (2n-3)!! chains, each `isBinaryTree`, with pairwise
-different `topology_id`. The `from_sorted_table` round trip stays kernel-checked for n ≤ 5
-(`enum_le4_partial`, `enum_5_partial`). -/
+different `topology_id`. The `from_sorted_table` round trip for every n is `enum_nat_roundtrip_all_n` /
+`enum_roundtrip_all_n` of Props/C14c.lean (`enum_le4_partial`, `enum_5_partial` remain as kernel-evaluated instances). -/
 theorem enum_nat_all_n (n : Nat) (h2 : 2 ≤ n) (h3 : n < 1000) :
     ∃ cs, fromParticles natMk 0 (finalsN n) = some cs ∧ cs.length = dfact (2 * n - 3)
       ∧ (∀ c ∈ cs, isBinaryTree 0 (finalsN n) c = true)
